@@ -513,6 +513,10 @@ func c19SensorMonitor(ctx *Ctx, dir string) {
 		{"failing", "exit 3", false, 600 * time.Millisecond},
 		{"sleeping-beyond-deadline", "exec sleep 6", false, 2800 * time.Millisecond},
 		{"grandchild-holds-stdout", "(sleep 6 &) ; echo 42000; exit 0", false, 1800 * time.Millisecond}, // output or an error, either is fine
+		// garbage of the numeric kind: not a reading, and the monitor goes on
+		{"prints-nan", "echo NaN", false, 600 * time.Millisecond},
+		{"prints-minus-infinity", "echo -Infinity", false, 600 * time.Millisecond},
+		{"nan-once-then-healthy", "if [ -e " + sdir + "/nan-seen ]; then echo 42000; else touch " + sdir + "/nan-seen; echo nan; fi", true, 1500 * time.Millisecond},
 	}
 	var paths []string
 	for i, m := range modes {
@@ -546,7 +550,20 @@ func c19SensorMonitor(ctx *Ctx, dir string) {
 			stopped = "the monitor ended on its own: " + msg
 		case <-time.After(m.runFor):
 		}
-		avg := sn.GetMovingAvg()
+		// (reading the smoothed value is what every control cycle of a fan on this sensor does)
+		avgRead := make(chan struct{})
+		var avg float64
+		go func() { avg = sn.GetMovingAvg(); close(avgRead) }()
+		if returned, blk := awaitOrDeadlock(avgRead); !returned {
+			if blk != "" {
+				ctx.Violation("sensor-monitor:smoothed-value-cannot-be-read-any-more:"+m.name, fmt.Sprintf("polling rate 100 ms, command %q: GetMovingAvg() has been waiting for the sensor's lock for minutes:\n%s", m.script, blk), nil)
+			} else {
+				ctx.Inconclusive("sensor monitor: GetMovingAvg() did not return within minutes")
+			}
+			cancel()
+			ctx.Abort = true
+			return
+		}
 		cancel()
 		if stopped == "" {
 			select {
